@@ -1,4 +1,4 @@
-\* two Contexts in one process: 2 operations (cleanup alphabet, 2 callables, + set/del of one name), end of run, new Context, 2 operations, end of run
+\* two Contexts in one process: 2 operations (push pop add_cleanup of 2 bare callables x raising x layer, set/del of one name), end of run, new Context, 2 operations, end of run
 INIT Init
 NEXT Next
 CONSTANTS
@@ -12,8 +12,8 @@ CONSTANTS
   WithMode = FALSE
   WithExec = FALSE
   MaxIds = 2
-  ArgModes = {0, 1}
-  WithFixtures = TRUE
+  ArgModes = {0}
+  WithFixtures = FALSE
   WithAttrs = TRUE
   NestSet <- NestNone
   TwoRuns = TRUE
